@@ -22,7 +22,7 @@ func (m *multi) String() string     { return strings.Join(*m, ",") }
 func (m *multi) Set(s string) error { *m = append(*m, s); return nil }
 
 func main() {
-	var harness, params multi
+	var harness, params, extra multi
 	mod := flag.String("mod", "", "module directory (absolute)")
 	pkg := flag.String("pkg", "", "package directory relative to the module, e.g. ./utils/limit")
 	entry := flag.String("entry", "", "harness entry function(s), comma separated")
@@ -38,6 +38,7 @@ func main() {
 	logdir := flag.String("solver-log", "", "directory for solver transcripts")
 	replay := flag.String("replay", "", "replay file: re-execute one recorded path concretely (inputs + decision trail)")
 	flag.Var(&harness, "harness", "harness source file (repeatable)")
+	flag.Var(&extra, "overlay", "extra overlay virtualpath=realfile (repeatable)")
 	flag.Var(&params, "param", "harness parameter name=int (repeatable)")
 	flag.Parse()
 
@@ -53,6 +54,10 @@ func main() {
 			pkgName = string(m[1])
 		}
 		overlay[filepath.Join(pkgDir, "zz_verif_"+filepath.Base(h))] = h
+	}
+	for _, e := range extra {
+		v, r, _ := strings.Cut(e, "=")
+		overlay[v] = r
 	}
 	if *rt != "" {
 		b, err := os.ReadFile(*rt)
